@@ -13,6 +13,7 @@ import (
 	"fmt"
 	"os"
 	"path/filepath"
+	"regexp"
 	"runtime"
 	"sort"
 	"strings"
@@ -690,9 +691,11 @@ func explore(s string) string {
 }
 
 // judge applies the five oracles of C07 to one recovery.
+var scratchPath = regexp.MustCompile(`/[^ :]*/(cut-[0-9]+(-k)?(-v)?|[A-Za-z0-9._-]*-real)/`)
+
 func judge(res crashfs.Result, validated map[string]bool, utxoAt func(string) (string, bool), finalTip, finalUTXO string) (string, string) {
 	if res.Died() {
-		d := res.Detail
+		d := scratchPath.ReplaceAllString(res.Detail, "<dir>/") // keys must not depend on scratch directory names
 		if len(d) > 80 {
 			d = d[:80]
 		}
